@@ -391,3 +391,99 @@ func runLiterals(r *engine.Run) {
 	r.Bound("str_len", fmt.Sprint(smax))
 	h.finish("literals")
 }
+
+// runEarlyErrors: the parse-time early errors named by the property, each
+// construct in each context; the reference decides which texts are errors and
+// otto must reject those (the accepted ones get the tree checks).
+func runEarlyErrors(r *engine.Run) {
+	h := newHarness(r, 64)
+	n := 0
+	try := func(key, src string) {
+		n++
+		if r.MineKey(key) {
+			h.one(key, src)
+		}
+	}
+	// jumps in contexts
+	jumps := []string{"break ;", "continue ;", "return ;", "return 1 ;", "break L ;", "continue L ;", "break M ;", "continue M ;"}
+	contexts := []string{
+		"%s", "{ %s }", "if ( a ) %s", "if ( a ) ; else %s", "L : %s", "L : { %s }", "L : M : %s", "with ( a ) %s", "try { %s } finally { }",
+		"try { } catch ( e ) { %s }", "try { } finally { %s }", "switch ( a ) { case 1 : %s }", "switch ( a ) { default : %s }", "L : switch ( a ) { case 1 : %s }",
+		"while ( a ) %s", "do %s while ( a ) ;", "for ( ; ; ) %s", "for ( k in o ) %s", "L : while ( a ) %s", "L : M : for ( ; ; ) { %s }", "L : { while ( a ) { %s } }",
+		"M : { L : for ( ; ; ) { %s } }", "L : for ( ; ; ) { M : { %s } }", "while ( a ) { switch ( b ) { case 1 : %s } }", "L : while ( a ) { ( function ( ) { %s } ) }",
+		"function f ( ) { %s }", "function f ( ) { L : %s }", "function f ( ) { while ( a ) { %s } }", "L : for ( ; ; ) { function f ( ) { %s } }", "x = function ( ) { %s } ;",
+		"x = { get a ( ) { %s } } ;", "while ( a ) { x = function ( ) { while ( b ) %s } }", "L : L : %s", "L : { L : %s }", "L : { x = function ( ) { L : %s } }", "L : ; L : %s",
+	}
+	for ci, c := range contexts {
+		for ji, j := range jumps {
+			try(fmt.Sprintf("jump/%d/%d", ci, ji), strings.ReplaceAll(c, "%s", j))
+		}
+		try(fmt.Sprintf("jump/%d/x", ci), strings.ReplaceAll(c, "%s", "x ( ) ;"))
+	}
+	// switch clauses: every sequence of <= 4 clauses over {case, default}
+	for l := 0; l <= 4; l++ {
+		for m := 0; m < 1<<uint(l); m++ {
+			var sb strings.Builder
+			sb.WriteString("switch ( a ) {")
+			for i := 0; i < l; i++ {
+				if m&(1<<uint(i)) != 0 {
+					sb.WriteString(" default : x ( ) ;")
+				} else {
+					fmt.Fprintf(&sb, " case %d : b = 1 ;", i)
+				}
+			}
+			sb.WriteString(" }")
+			try(fmt.Sprintf("switch/%d/%d", l, m), sb.String())
+		}
+	}
+	// assignment / increment / for-in targets
+	targets := []string{"a", "a . b", "a [ 0 ]", "( a )", "( a . b )", "( ( a ) )", "1", "\"s\"", "null", "true", "this", "a + b", "( a + b )", "- a", "! a", "a ++", "++ a", "( a , b )",
+		"a ? b : c", "( a = b )", "[ a ]", "{ }", "( { } )", "function ( ) { }", "( function ( ) { } )", "new a", "new a ( )", "new a . b", "/r/", "typeof a", "a && b", "a = b", "void 0", "a . b . c", "a ( ) . b", "a ( ) [ 0 ]", "( a ( ) . b )"}
+	for ti, t := range targets {
+		for oi, op := range syntax.AssignOps() {
+			try(fmt.Sprintf("assign/%d/%d", ti, oi), t+" "+op+" 1 ;")
+			try(fmt.Sprintf("assign2/%d/%d", ti, oi), "x = "+t+" "+op+" 1 ;")
+		}
+		for oi, op := range []string{"++", "--"} {
+			try(fmt.Sprintf("prefix/%d/%d", ti, oi), op+" "+t+" ;")
+			try(fmt.Sprintf("postfix/%d/%d", ti, oi), t+" "+op+" ;")
+			try(fmt.Sprintf("prefix2/%d/%d", ti, oi), "x = "+op+" "+t+" ;")
+			try(fmt.Sprintf("postfix2/%d/%d", ti, oi), "x = "+t+" "+op+" ;")
+		}
+		try(fmt.Sprintf("forin/%d", ti), "for ( "+t+" in o ) ;")
+		try(fmt.Sprintf("forinvar/%d", ti), "for ( var "+t+" in o ) ;")
+	}
+	// try without handler, catch parameter forms
+	for i, s := range []string{"try { }", "try { } x ( )", "try { } catch { }", "try { } catch ( ) { }", "try { } catch ( 1 ) { }", "try { } catch ( a , b ) { }", "try { } catch ( a . b ) { }",
+		"try x ( ) ; catch ( e ) { }", "try { } catch ( e ) x ( )", "try { } finally x ( )", "try { } finally { } catch ( e ) { }", "try { } catch ( e ) { } catch ( f ) { }", "catch ( e ) { }", "finally { }",
+		"try { } catch ( e ) { } finally { } finally { }", "else x ( )", "case 1 : x ( )", "default : x ( )", "if ( a ) else b", "if a b", "while ( ) x ( )", "do x ( ) while a", "for ( ; ) ;", "for ( ; ; ; ) ;",
+		"for ( var a , b in c ) ;", "for ( var a = 1 , b = 2 in c ) ;", "for ( a in b in c ) ;", "for ( a in b ; ; ) ;", "for ( var in o ) ;", "for ( in o ) ;", "with x ( )", "switch ( a ) { x ( ) }", "switch ( a ) { case : }",
+		"switch a { }", "function ( ) { }", "function f { }", "function f ( ) x ( )", "function f ( 1 ) { }", "function f ( a , , b ) { }", "function f ( a b ) { }", "var", "var 1", "var a =", "var a , ;", "throw ;", "throw", "new", "a .", "a . 1", "a [ ]",
+		"a ( , )", "a ( b c )", "( )", "( a", "a )", "[ a", "a ]", "{ a : }", "x = { a }", "x = { a : 1 , , }", "x = { , }", "x = [ a b ]", "a ? b", "a ? : c", "a ? b : ", "a = ", "= a", "a + ", "* a", "a * * b", "a ! b", "a ~ b", "! ", "typeof", "delete", "void",
+		"x = { get a ( ) { } , get a ( ) { } }", "x = { a : 1 , get a ( ) { } }", "x = { get a ( ) { } , a : 1 }", "x = { set a ( v ) { } , set a ( w ) { } }", "x = { a : 1 , a : 2 }", "x = { get a ( ) { } , set a ( v ) { } }", "x = { get a ( b ) { } }",
+		"x = { set a ( ) { } }", "x = { set a ( b , c ) { } }", "x = { get : 1 , set : 2 }", "x = { get get ( ) { } }", "x = { get ( ) { } }", "x = { get a : 1 }", "x = { \"a\" 1 }", "x = { 1 }", "x = { a : 1 b : 2 }", "f ( a , )", "new f ( a , )",
+		"( function ( a , ) { } )", "function f ( a , ) { }", "( a ) : x ( )", "do ; while ( 0 ) x ( )", "if ( a ) function g ( ) { }", "{ function g ( ) { } }", "L : function g ( ) { }", "while ( a ) function g ( ) { }",
+		"L : { for ( ; ; ) { continue L ; } }", "L : if ( a ) while ( b ) continue L ;", "a &^= b", "a &^ b", "a = b &^ c", "for ( a < b in c ; ; ) ;", "x = /[/", "x = /[/ ; x ( )", "switch ( a ) {", "switch ( a ) { case 1 : x ( )"} {
+		try(fmt.Sprintf("misc/%d", i), s)
+	}
+	// reserved words where an Identifier is required
+	words := strings.Fields(`break case catch continue debugger default delete do else finally for function if in instanceof new return switch this throw try typeof var void while with
+		class const enum export extends import super null true false let static yield implements interface package private protected public undefined NaN eval arguments get set of`)
+	positions := []string{"var %s ;", "var %s = 1 ;", "function %s ( ) { }", "function f ( %s ) { }", "x = function %s ( ) { } ;", "x = function ( a , %s ) { } ;", "try { } catch ( %s ) { }", "%s : x ( ) ;", "L : for ( ; ; ) break %s ;",
+		"x = %s ;", "%s = 1 ;", "%s ++ ;", "x = a . %s ;", "x = { %s : 1 } ;", "x = { get %s ( ) { } } ;", "for ( var %s in o ) ;", "for ( %s in o ) ;", "%s ( ) ;", "x = { set a ( %s ) { } } ;"}
+	for wi, w := range words {
+		for pi, p := range positions {
+			try(fmt.Sprintf("word/%d/%d", wi, pi), strings.ReplaceAll(p, "%s", w))
+		}
+	}
+	// regular expression literals: bodies x flags
+	bodies := []string{"a", "(", ")", "[", "]", "a)", "(a", "(?:a)", "(?=a)", "(?!a)", "(?a)", "(?", "a*", "*", "a**", "a+?", "+", "?", "a{1}", "a{1,}", "a{1,2}", "a{2,1}", "a{1}{2}", "{1}", "a{", "a{,1}", "^*", "$+", "\\b*", "(?=a)*",
+		"[a-z]", "[z-a]", "[a-\\d]", "[\\d-a]", "[]", "[^]", "[\\]]", "[/]", "\\/", "\\", "a|b", "|", "a||b", "(|)", "\\1", "(a)\\1", "\\2(a)", "\\x41", "\\xZ", "\\u0041", "\\u00", "\\cA", "\\c1", "\\0", "\\08", ".", "\\.", "a\\"}
+	for bi, b := range bodies {
+		for fi, f := range []string{"", "g", "i", "m", "gim", "mig", "gg", "x", "gx", "G", "ii", "gimg", "1", "g1", "$", "_"} {
+			try(fmt.Sprintf("regex/%d/%d", bi, fi), "x = /"+b+"/"+f+" ;")
+		}
+	}
+	r.Bound("cases", fmt.Sprint(n))
+	h.finish("earlyerrors")
+}
